@@ -304,4 +304,47 @@ theorem runE_erase (p1 p2 : Str) {b : Bool} {prog : Prog} (hg : Guarded b prog) 
       · simp only [hok]
         rfl
 
+/-! ## the change phase -/
+
+theorem Guarded.andThen {b : Bool} {p : Prog} (hp : Guarded b p) {q : Prog} (hq : Guarded false q) :
+    Guarded b (p.andThen q) := by
+  induction hp with
+  | tail b => exact hq.weaken b
+  | abort b m => exact .abort b m
+  | sendLit b s k _ ih => exact .sendLit b s _ ih
+  | sendPass k _ ih => exact .sendPass _ ih
+  | expect b w re pw ok k _ ih => exact .expect b w re pw ok _ fun out h => ih out h
+  | setLog b l k _ ih => exact .setLog b l _ ih
+
+theorem guarded_scriptProg : ∀ script : List Str, Guarded false (scriptProg script)
+  | [] => .tail false
+  | c :: cs => guarded_issue_lit false c [] false anyOut _ fun _ _ => (guarded_scriptProg cs).weaken _
+
+theorem guarded_changeProg (applies : Bool) (script : List Str) : Guarded false (changeProg applies script) := by
+  unfold changeProg
+  cases applies
+  · exact guarded_scriptProg script
+  · exact .setLog false _ _ (guarded_scriptProg script)
+
+/-- The steps of the change phase are a function of the script and of what the device writes: the
+password is no argument of it (whatever the device echoes, whatever was sent last). -/
+theorem runE_scriptProg (p1 p2 : Str) : ∀ (script : List Str) (last1 last2 : Str) (dev : EDev),
+    runE p1 (scriptProg script) last1 dev = runE p2 (scriptProg script) last2 dev
+  | [], _, _, _ => rfl
+  | c :: cs, _, _, dev => by
+    cases dev with
+    | nil => rfl
+    | cons d r =>
+      obtain ⟨pre, t, e⟩ := d
+      simp only [scriptProg, issue, runE, Cmd.text, anyOut, if_true]
+      rw [runE_scriptProg p1 p2 cs [] [] r]
+
+theorem runE_changeProg (p1 p2 : Str) (applies : Bool) (script : List Str) (last1 last2 : Str) (dev : EDev) :
+    runE p1 (changeProg applies script) last1 dev = runE p2 (changeProg applies script) last2 dev := by
+  unfold changeProg
+  cases applies
+  · exact runE_scriptProg p1 p2 script last1 last2 dev
+  · simp only [if_true, runE]
+    rw [runE_scriptProg p1 p2 script last1 last2 dev]
+
 end NA.Mask
